@@ -17,7 +17,7 @@ BOUNDS = {'quick': 'expected 1-3 x submitted 1-4 items: <=2x2 full (unordered), 
                    'one level of nesting 2x2 with ordered inner lists; all length_error/missing_error flag combinations on concrete blank/short inputs',
           'thorough': 'adds 3x3 full, 2x4 full, 3x2 full, nested unordered inner lists, permutation invariance at 3x3 interior'}
 OUTSIDE = ['IEEE rounding of credit sums', 'lists longer than the bounds', 'SymStr submissions (covered for delimiters in C02/C07-O2 when built)']
-DEADLINE = {'quick': 150, 'thorough': 2400}
+DEADLINE = {'quick': 600, 'thorough': 2400}
 FUNCS = ['SingleListGrader.check_response/process_grade_list/infer_from_expect/post_schema_ans_val', 'listgrader.consolidate_single_return',
          'listgrader.consolidate_grades', 'listgrader.find_optimal_order', 'listgrader.padded_check/get_padded_lists', 'munkres.Munkres.compute',
          'ItemGrader.check', 'AbstractGrader.__call__']
